@@ -91,6 +91,15 @@ def vh(args, outfile, profile="release", timeout=1800, append=False):
         break
 
 
+def vh_out(args, profile="release", timeout=120):
+    """Run the harness and return its (small) stdout as text."""
+    binp = build_harness(profile)
+    r = subprocess.run([binp] + [str(a) for a in args], stdout=subprocess.PIPE, stderr=subprocess.PIPE, text=True, timeout=timeout)
+    if r.returncode != 0:
+        raise ToolError("harness %s failed (%d): %s" % (args[0], r.returncode, r.stderr[-2000:]))
+    return r.stdout.strip()
+
+
 ALL_INV = {
     "C01": "C01_ResultRegion", "C02": "C02_ValidPolygonSet", "C03": "C03_EveryCallReturns",
     "C04": "C04_GeometryFromInputs", "C05": "C05_FourOpsConsistent", "C06": "C06_SetAlgebraLaws",
@@ -99,8 +108,20 @@ ALL_INV = {
 }
 
 
+def ensure_overrides():
+    """Compile the TLC module override of FloatGeometry.tla (spec/FloatGeometry.java -> .class next to the
+    specification, where TLC looks for it) if it is missing or older than its source."""
+    src, cls = os.path.join(SPEC, "FloatGeometry.java"), os.path.join(SPEC, "FloatGeometry.class")
+    if os.path.exists(cls) and os.path.getmtime(cls) >= os.path.getmtime(src):
+        return
+    r = sh("javac -cp /opt/veriftools/tla/tla2tools.jar -d . FloatGeometry.java 2>&1", cwd=SPEC, timeout=300)
+    if r.returncode != 0 or not os.path.exists(cls):
+        raise ToolError("javac FloatGeometry.java failed: %s" % (r.stdout or "")[-1500:])
+
+
 def run_tlc(spec, cfg_text, workdir, env=None, timeout=3600, workers=None, extra=None, java_opts="-Xss512m"):
     """Run TLC on spec (a file in SPEC) with the given cfg text. Returns (output, seconds)."""
+    ensure_overrides()
     os.makedirs(workdir, exist_ok=True)
     cfg = os.path.join(workdir, "model.cfg")
     with open(cfg, "w") as f:
